@@ -4,5 +4,6 @@ CHECK_DEADLOCK FALSE
 INVARIANT UniqueAndRight
 INVARIANT RootDigits
 INVARIANT InvOK
+INVARIANT Emit
 CONSTANTS
   K = 40
